@@ -96,6 +96,14 @@ def _flipoutcome(e):
     return None
 
 
+def _swapargs(e):
+    for c in e.get('calls', []):
+        if len(c[1]) >= 2 and c[1][0] != c[1][1]:
+            c[1][0], c[1][1] = c[1][1], c[1][0]
+            return e
+    return None
+
+
 PROPS = {
     'C11': dict(
         tv=dict(module='ScannerTrace', cfg='ScannerTrace.cfg'),
@@ -152,6 +160,13 @@ PROPS = {
         mc=[],
         corrupt=[('flip accepted/rejected', _flipoutcome)],
         exhaustive_part=True,
+    ),
+    'C01': dict(
+        tv=dict(module='ExprEvalTrace', cfg='ExprEvalTrace.cfg'),
+        mc=[],
+        corrupt=[('swap operands of a recorded application', _swapargs)],
+        exhaustive_part=True,
+        harness_prefix='HARNESS:',
     ),
 }
 
@@ -251,5 +266,19 @@ DOC = {
         note='Trusted: TLC, Json module, recorder. Error codes/messages and positions are not prescribed; empty input is outside the '
              'statement. The sign binds before the index (-a[1] = (-a)[1]) as the implementation does; the statement leaves that open.',
         technique='TLA+ reference grammar (ExprGrammar.RefParse) + TLC trace validation of exhaustive token strings and mutated sentences',
+    ),
+    'C01': dict(
+        level='ExprEval.tla defines the direct evaluation of a syntax tree as the sequence of variant-operation and function applications '
+              'with operand identities (Wire), values left uninterpreted; ExprGrammar.RefParse ties token lists to trees. The real '
+              'ExpressionCalculator runs with a recording operations manager and function collection installed through its public API, on '
+              'texts printed from generated trees (all ordered pairs of the 27 operator forms in every operand slot, sampled/all triples, '
+              'random trees of any depth; minimal, full and random parenthesisation with redundant +, random spacing, comments, keyword '
+              'case). ExprEvalTrace.tla checks that the emitted tokens denote the tree (generator validation), that the recorded '
+              'applications equal Wire(tree) and that the result is the root\'s value; a second event kind evaluates two renderings of one '
+              'tree with the real operations and random values of every type and requires equal results.',
+        note='Trusted: TLC, Json module, the recording manager (pointer identity of operands), the generator only as far as TLC validates '
+             'it (RefParse(tokens) = PostOrder(tree)). Operator semantics are C06\'s subject and deliberately uninterpreted here; LIKE has no '
+             'variant operation and must yield an error. A lexer disagreement is C13\'s subject and skipped here.',
+        technique='TLA+ evaluation-wiring spec (ExprEval.Wire) + TLC trace validation of the real calculator instrumented through its public operation/function interfaces',
     ),
 }
